@@ -127,19 +127,23 @@ func (c *client) pager(ctx context.Context, initialReq *ocirequest.Request, pars
 					return
 				}
 			}
-			if len(items) == 0 {
-				return
-			}
-			if len(items) < initialReq.ListN && resp.Header.Get("Link") == "" {
+			if resp.Header.Get("Link") == "" && (len(items) == 0 || len(items) < initialReq.ListN) {
 				// From the distribution spec:
 				//     The response to such a request MAY return fewer than <int> results,
 				//     but only when the total number of tags attached to the repository
 				//     is less than <int>.
-				// A registry with a smaller page limit of its own says
-				// so with a Link header, which we follow.
+				// A registry with a smaller page limit of its own (or one
+				// that filters its pages, possibly down to nothing) says that
+				// there's more with a Link header, which we follow.
 				return
 			}
-			nextReq, err := nextLink(ctx, resp, initialReq, items[len(items)-1])
+			last := ""
+			if len(items) > 0 {
+				// (only used when there's no Link header, in which
+				// case there's at least one item)
+				last = items[len(items)-1]
+			}
+			nextReq, err := nextLink(ctx, resp, initialReq, last)
 			if err != nil {
 				yield("", fmt.Errorf("invalid Link header in response: %v", err))
 				return
